@@ -16,7 +16,7 @@ RULE = {"C16": "threaded workload: a worker thread runs `with NotifierDelay(P) a
                "(first programmed alarm == t0 + n).  Non-trivial = run with >=1 overrun and >=1 on-time wait; distinct = hash of "
                "(P, bodies)."}
 REQUIRED = {"C16": {"wait-on-time": 500, "wait-after-overrun": 100, "catch-up-wait": 50, "alarm-on-grid": 1000, "freed-wait-immediate": 50,
-                    "release-observed": 50, "release-on-exception-exit": 10,
+                    "release-observed": 50, "release-on-exception-exit": 10, "clock-around-2^32us": 5,
                     "conversion-period-checked": 5000}}
 ASSUMPTIONS = {"C16": ["the HAL simulator's waitForNotifierAlarm returns when the simulated clock reaches the programmed alarm (level-triggered)",
                        "sub-microsecond periods are not generated (the clock cannot represent the grid)"]}
@@ -24,8 +24,9 @@ ASSUMPTIONS = {"C16": ["the HAL simulator's waitForNotifierAlarm returns when th
 
 def shards(pid, tier, seed):
     if tier == "quick":
-        return [{"mode": "threaded", "n": 40} for _ in range(4)] + [{"mode": "convert", "lo": 1000, "hi": 100000, "stride": 9, "offset": i} for i in range(2)]
-    return ([{"mode": "threaded", "n": 250} for _ in range(12)]
+        return ([{"mode": "threaded", "n": 40} for _ in range(4)] + [{"mode": "threaded", "n": 12, "start_at": 2 ** 32 - 400000}]
+                + [{"mode": "convert", "lo": 1000, "hi": 100000, "stride": 9, "offset": i} for i in range(2)])
+    return ([{"mode": "threaded", "n": 250} for _ in range(12)] + [{"mode": "threaded", "n": 60, "start_at": 2 ** 32 - 3000000}]
             + [{"mode": "convert", "lo": 1000 + i * 24750, "hi": min(100000, 1000 + (i + 1) * 24750 - 1), "stride": 1, "offset": 0} for i in range(4)])
 
 
@@ -53,6 +54,10 @@ def gen_case(rng):
         else:
             b = P * rng.randrange(2, 6) + rng.choice([0, 1, -1])
         bodies.append(b)
+    if rng.random() < 0.1:
+        # a long stretch of overruns: the loop falls more than a second behind and must still catch up on the grid
+        n_over = (1200000 // P) // 2 + 5
+        bodies = [rng.choice([3 * P, 2 * P + 1, 3 * P - 1]) for _ in range(min(n_over, 70))] + [0] * min(2 * n_over + 4, 150) + bodies[:5]
     return {"mode": "threaded", "P": P, "bodies": bodies, "after_free": rng.choice([1, 2]), "use_with": rng.random() < 0.6, "exit_exc": rng.random() < 0.4,
             "start_offset": rng.randrange(0, 5000)}
 
@@ -67,6 +72,8 @@ def run_threaded(acc, case):
     P = case["P"]
     bodies = case["bodies"]
     e.advance(case.get("start_offset", 0))
+    if case.get("start_at") and e.now() < case["start_at"]:
+        e.step_to(case["start_at"])          # e.g. just below 2**32 us (71.6 min of FPGA time)
     go = threading.Semaphore(0)
     done = threading.Semaphore(0)
     rets = []
@@ -289,6 +296,10 @@ def run_shard(spec):
         return acc.result()
     for i in range(spec["n"]):
         case = gen_case(rng)
+        if spec.get("start_at"):
+            case["start_at"] = spec["start_at"]
+            case["P"] = max(case["P"], 20000)
+            acc.ev("clock-around-2^32us")
         r = run_threaded(acc, case)
         if r is not None:
             acc.ev("case-inconclusive")
